@@ -85,7 +85,9 @@ def run_tlc(wd, root, cfg_text, name, workers=1, timeout=1800, extra=None, java_
             r = sh(cmd, cwd=wd, timeout=timeout, stdout=f, env=env)
         except subprocess.TimeoutExpired:
             raise ToolError("TLC timed out on %s" % name)
-    shutil.rmtree(md, ignore_errors=True)
+        finally:
+            # the states directory of a large run is tens of gigabytes: never leave it behind
+            shutil.rmtree(md, ignore_errors=True)
     st = tlc_stats(out)
     st["wall_s"] = round(time.time() - t0, 1)
     st["exit"] = r.returncode
